@@ -24,3 +24,10 @@ Theorem C09_rule_repetition : forall mn mx g r, complexity (RRep mn mx g r) = mn
 Proof. exact complexity_rep. Qed.
 Theorem C09_rule_assertion : complexity RLook = 0.
 Proof. exact complexity_look. Qed.
+
+(* what the code computes (usize arithmetic, saturating since finding F11 was repaired) is the documented value
+   cut off at usize::MAX, and the documented value itself whenever that fits *)
+Theorem C09_code_value_is_rule_saturated : forall r, lits_small r = true -> complexity_sat r = N.min (complexity r) usize_max.
+Proof. exact complexity_sat_spec. Qed.
+Theorem C09_code_value_exact : forall r, lits_small r = true -> complexity r <= usize_max -> complexity_sat r = complexity r.
+Proof. exact complexity_sat_exact. Qed.
